@@ -171,6 +171,19 @@ class CliSampler:
             r = self.pna(a, cwd=self.sb.path(d, "src")); hist.append("cd %s/src && %s" % (d, cmdtext(a)))
             if r["rc"] == 0:
                 self.record("cli:create-dot", [d + "/a.pna"], pw, tree_expect(self.sb.path(d, "src"), "", kd), hist)
+        elif kind == "big":
+            # one file above 1 MiB (above 2 MiB every other time), stored: whatever a writer below the cipher or the
+            # compressor does with very large single writes shows only here
+            size = (1 << 20) + 4097 if self.n % 2 else (2 << 20) + 17
+            with open(self.sb.path(d, "src", "big.bin"), "wb") as f:
+                f.write(bytes(rnd.getrandbits(8) for _ in range(4096)) * (size // 4096) + b"tail" * ((size % 4096) // 4))
+            pw = "pw"
+            a = ["create", d + "/a.pna", "-r", d + "/src", "--quiet", "--store", "--password", pw] + rnd.choice([["--aes", "ctr"], ["--camellia", "ctr"], ["--aes", "cbc"]]) \
+                + ["--pbkdf2", "r=1"] + keep + ow + (["--solid"] if rnd.random() < 0.7 else [])
+            exp = tree_expect(self.sb.path(d, "src"), d + "/src", kd)
+            r = self.pna(a); hist.append(cmdtext(a))
+            if r["rc"] == 0:
+                self.record("cli:create-big", [d + "/a.pna"], pw, exp, hist)
         elif kind == "solid":
             a = base + ["--solid"]
             r = self.pna(a); hist.append(cmdtext(a))
@@ -275,7 +288,8 @@ class CliSampler:
                     self.record("cli:stdio-file", [d + "/a.pna"], pw, exp, hist)
 
 
-KINDS = ["create", "solid", "split", "append", "update", "edit", "edit", "concat", "splitcmd", "stdio", "create", "solid", "dot"]
+KINDS = ["create", "solid", "split", "append", "update", "edit", "edit", "concat", "splitcmd", "stdio", "create", "solid", "dot",
+         "create", "solid", "split", "append", "update", "edit", "edit", "concat", "splitcmd", "stdio", "create", "solid", "dot", "big"]
 
 
 def check_file(c, f, cases, impl_outcomes, stats):
